@@ -78,7 +78,7 @@ func makeGeneratorDescs(
 			copy(path, currentPath)
 			path[len(currentPath)] = i
 
-			if reflectField.Anonymous {
+			if reflectField.Anonymous && reflectField.Type.Kind() == reflect.Struct {
 				// Treat the embedded struct as if it were part of the parent struct
 				makeGeneratorDescs(getBuilderGeneratorForType, reflectField.Type, path, generatorDescs)
 			} else {
